@@ -13,7 +13,7 @@ REPO = ROOT + '/repo'
 H = ROOT + '/harness'
 VD = ROOT + '/vdir'
 IDS = ['C01','C02','C03','C04','C05','C06','C09','C10','C11','C12','C13','C14','C17','C18','C19','C20']
-env = dict(os.environ, CARGO_NET_OFFLINE='true', SEQIO_VERIF_DIR=VD, RUST_BACKTRACE='0')
+env = dict(os.environ, CARGO_NET_OFFLINE='true', SEQIO_VERIF_DIR=VD, RUST_BACKTRACE='0', VERIF_CASE_TIMEOUT='40')
 env.pop('VERIF_SCALE', None)
 
 def sh(cmd, cwd=None, timeout=1800):
@@ -76,7 +76,7 @@ for i, m in enumerate(muts):
             sigs = [l.split('signature:')[1].strip() for l in out.splitlines() if 'signature:' in l]
             det[cid] = sorted(set(sigs))[:4]
         elif rc != 0:
-            inconcl.append((cid, rc))
+            inconcl.append((cid, rc, [l for l in out.splitlines() if 'INCONCLUSIVE' in l][:1]))
     m['detected_by'] = det; m['inconclusive'] = inconcl
     m['sweep_status'] = 'killed' if det else ('inconclusive' if inconcl else 'SURVIVED')
     m['secs'] = round(time.time() - t0, 1)
